@@ -38,6 +38,8 @@ def project(style):
         "keys": list(style.keys()),
         "items": [style.item(i) for i in range(n)],
         "itemPast": style.item(n),
+        "itemsNeg": [style.item(-i) for i in range(1, n + 1)],      # "negative values behave like negative indexes on Python lists"
+        "itemBefore": style.item(-n - 1),
         "iter": [p.name for p in style],
         "probes": probes,
         "effective": [{"name": p.name, "value": p.value, "prio": p.priority} for p in style.getProperties()],
